@@ -43,6 +43,10 @@ impl ClockQuality {
     /// # Errors
     /// Fails when the provided buffer is too short.
     pub fn serialize(self, buffer: &mut [u8]) -> Result<(), Error> {
+        // Only 0x80..=0xfd are profile specific accuracies on the wire.
+        if matches!(self.clock_accuracy, ClockAccuracy::ProfileSpecific(v) if v > 0x7d) {
+            return Err(Error::Invalid);
+        }
         *buffer.get_mut(0).ok_or(Error::BufferTooShort)? = self.clock_class;
         *buffer.get_mut(1).ok_or(Error::BufferTooShort)? = self.clock_accuracy.to_primitive();
         buffer
